@@ -382,6 +382,7 @@ Section XSim.
       + apply STEP. apply x_pause_sim; auto.
       + apply STEP. apply x_resume_sim; auto.
       + simpl. auto.
+      + simpl. auto.
   Qed.
 
   (* ---- one wake-up ---------------------------------------------------------------------------------- *)
